@@ -17,4 +17,10 @@ def plan(exp, tier):
         matcore.add_mat_movement(u, ms)
     matcore.add_mat_size_conversions(u)
     p.add_unit('c03', u, ['vec', 'mat'])
+    import kani_driver
+    p.kani = kani_driver.load_specs('c03')
+    p.assumptions += ['IndexMut<(usize,usize)> (unsafe slice views), Display (core::fmt) and the casts as_/numcast are outside the Verus unit; they are '
+                      'proved by Kani on the real code (/verif/kani/c03): IndexMut and casts for every u8 / i16 matrix, Display through a recording '
+                      'element type and sink under a Formatter with a non-default precision (nightly Formatter::new of Kani\'s toolchain)']
+    p.not_decided += ['flat / nested array conversions and slice views: Kani under C18', 'Display of element types whose own fmt fails (error propagation)']
     return p
